@@ -58,7 +58,7 @@ class CallGen:
         # registered names are case sensitive C identifiers
         name = self.ch.choice(["vf", "vF", "satU", "lowBits"], "fname") + f"{self.uid}_{self.n}"
         kind = ch.weighted([("ret_param", 4), ("ret_cast", 3), ("ret_bin", 3), ("local", 3), ("branch", 3), ("postinc", 4),
-                            ("nested", 4 if self.order else 0), ("loop", 2)], "fkind")
+                            ("nested", 4 if self.value_funcs() else 0), ("loop", 2), ("void_write", 2), ("pc_read", 1)], "fkind")
         A = self.cfg == "A"
         if kind == "ret_param":
             P = ch.choice(ALL_T, "P")
@@ -94,6 +94,17 @@ class CallGen:
                      [("assign", l1, ("var", "p"))], [("assign", l1, ("bin", "-", ("var", "q"), ("lit", 1, P)))]),
                     ("return", ("var", l1))]
             params = [(P, "p"), (P, "q")]
+        elif kind == "void_write":
+            # no return value: the result leaves through a by-reference register operand (bundle and RdV are passed through)
+            P = ch.choice(WIDE_T[:2], "P")
+            R = None
+            body = [("regassign", "RdV", ("bin", ch.choice(["+", "^", "-"], "vop"), ("var", "v"), ("lit", ch.choice([1, 3, 16], "vlit"), P)), ("s", 32))]
+            params = [(("ext", "HexInsnPktBundle *"), "bundle"), (("ext", "const HexOp *"), "RdV"), (P, "v")]
+        elif kind == "pc_read":
+            P = ("u", 32)
+            R = self.pick(ALL_T, lambda r: not (A and f5b(P, r)), "R")
+            body = [("return", ("bin", "+", ("var", "p"), ("reg", "HEX_REG_ALIAS_PC", ("u", 32))))]
+            params = [(P, "p")]
         elif kind == "loop":
             P = ch.choice(WIDE_T, "P")
             R = self.pick(ALL_T, lambda r: not (A and f5b(P, r)), "R")
@@ -124,7 +135,7 @@ class CallGen:
                         ("return", ("bin", "-", ("var", l2), ("var", l1)))]
             params = [(P, "p")]
         else:  # nested
-            g = self.funcs[ch.choice(self.order, "callee")]
+            g = self.funcs[ch.choice(self.value_funcs(), "callee")]
             gP = [pt for pt, _ in g["params"]]
             P = self.pick(ALL_T, lambda p: all(not (A and f5a(p, gp)) for gp in gP), "P") or gP[0]
             Rg = g["ret"]
@@ -151,25 +162,40 @@ class CallGen:
                     body = [("return", ("call", g["name"], args))]
             R = self.pick(ALL_T, lambda r: not (A and f5b(cref.promote(E) if form == 2 and Rg[1] >= 32 else E, r)), "R")
             params = [(P, "p")]
-        f = {"name": name, "ret": R, "params": params, "body": body, "kind": kind}
+        f = {"name": name, "ret": R, "params": params, "body": body, "kind": kind,
+             "const": [pt[0] != "ext" and ch.chance(1, 4, "const") for pt, _ in params]}
         self.funcs[name] = f
         self.order.append(name)
         return f
+
+    def value_funcs(self):
+        return [n for n in self.order if self.funcs[n]["ret"] is not None and all(pt[0] != "ext" for pt, _ in self.funcs[n]["params"])]
+
+    @staticmethod
+    def param_decl(f):
+        out = []
+        for i, (t, n) in enumerate(f["params"]):
+            if t[0] == "ext":
+                out.append(f"{t[1]}{n}" if t[1].endswith("*") else f"{t[1]} {n}")
+            else:
+                const = "const " if i < len(f.get("const", [])) and f["const"][i] else ""
+                out.append(f"{const}{cref.show_type(t)} {n}")
+        return out
 
     @staticmethod
     def failing_registration(f):
         """The same name and signature with a body the compiler rejects (unsupported loop) - a registration that
         raises must leave nothing behind, so the corrected body registered afterwards is the one that runs."""
         good = cref.show_stmts(f["body"])
-        p0 = f["params"][0][1]
+        p0 = [n for t, n in f["params"] if t[0] != "ext"][0]
         return {"name": f["name"], "ret": cref.show_type(f["ret"]),
-                "params": [f"{cref.show_type(t)} {n}" for t, n in f["params"]],
+                "params": CallGen.param_decl(f),
                 "body": "{ while (" + p0 + ") { " + p0 + " = " + p0 + " - 1; } " + good + " }"}
 
     @staticmethod
     def registration(f):
         return {"name": f["name"], "ret": cref.show_type(f["ret"]),
-                "params": [f"{cref.show_type(t)} {n}" for t, n in f["params"]],
+                "params": CallGen.param_decl(f),
                 "body": "{ " + cref.show_stmts(f["body"]) + " }"}
 
     # ------------------------------------------------------------ callers
@@ -195,12 +221,13 @@ class CallGen:
             names_used.add(n)
             return n
 
-        user = [self.funcs[n] for n in self.order]
+        user = [self.funcs[n] for n in self.value_funcs()]
+        voids = [self.funcs[n] for n in self.order if self.funcs[n]["ret"] is None]
         # conv_round shifts by its second argument: only called with literal amounts (FIXED_CALLERS), never with data
         bundled = [dict(v, name=k) for k, v in cref.BUNDLED.items() if k != "conv_round"] if allow_bundled else []
         pool = user * 3 + bundled
         form = ch.weighted([("single", 5), ("two_calls", 5), ("parked", 4), ("arg_call", 3), ("three_calls", 2), ("cond_calls", 1),
-                            ("const_cond_calls", 2), ("reassign", 3)], "cform")
+                            ("const_cond_calls", 2), ("reassign", 3), ("void_call", 4 if voids else 0), ("loop_cond_call", 2)], "cform")
         stmts = []
         srcs = ["RssV", "RttV"]
 
@@ -257,6 +284,35 @@ class CallGen:
             out = fresh(5)
             stmts.append(("decl", T, out, e))
             outs = [(out, T)]
+        elif form == "void_call":
+            # a void routine called as a statement; its value argument contains another call, which must run first
+            f = ch.choice(voids, "vf")
+            P = [pt for pt, _ in f["params"] if pt[0] != "ext"][0]
+            inner = [g for g in pool if not (self.cfg == "A" and f5a(g["ret"], P))]
+            g = ch.choice(inner, "g") if inner else dict(cref.BUNDLED["clz32"], name="clz32")
+            # (the inner call's arguments read registers directly: the compiler moves a parent-less call in front of
+            #  all earlier statements - statement order is C05/C06, not this property - so it must not depend on them)
+            def direct(g_):
+                return ("call", g_["name"], [("cast", self.arg_for(pt, "RssV", "A"), ("reg", srcs[j % 2], ("s", 64)))
+                                              for j, (pt, _) in enumerate(g_["params"])])
+            if ch.chance(3, 4, "inner-call"):
+                arg = direct(g)
+            else:
+                A_ = self.arg_for(P, "RssV", "A")
+                arg = ("cast", A_, ("reg", "RssV", ("s", 64)))
+            stmts.append(("expr", ("call", f["name"], [("ext", "bundle"), ("ext", "RdV"), arg])))
+            outs = [("@RdV", ("s", 32))]
+            uses = [f["name"], g["name"]]
+        elif form == "loop_cond_call":
+            # a call inside a loop condition
+            f = ch.choice(pool, "f")
+            acc = fresh(4)
+            c1 = call(f, 0)
+            stmts.append(("decl", ("s", 32), acc, ("lit", 0, ("s", 32))))
+            cond = ("cmp", "<", ("var", "i"), ("bin", "&", c1, ("lit", 7, ("s", 32))))
+            stmts.append(("forc", "i", cond, [("assign", acc, ("bin", "+", ("var", acc), ("lit", 1, ("s", 32))))]))
+            outs = [(acc, ("s", 32))]
+            uses = [f["name"]]
         elif form == "reassign":
             # the same routine called twice with the same *variable*, which is assigned in between
             one = [f for f in pool if len(f["params"]) == 1]
@@ -314,7 +370,7 @@ def to_json(x):
 
 
 _TAGS = {"lit", "var", "reg", "cast", "bin", "shift", "cmp", "neg", "not", "cond", "call", "postinc",
-         "decl", "assign", "regassign", "if", "return", "expr", "for", "s", "u"}
+         "decl", "assign", "regassign", "if", "return", "expr", "for", "forc", "ext", "s", "u"}
 
 
 def from_json(x):
